@@ -132,7 +132,7 @@ def collection_bounds(members, bounds, parent, N):
     if parent == "chrom":
         return (0, N)
     if isinstance(parent, (list, tuple)):
-        return (parent[0], parent[1])
+        return (parent[-2], parent[-1])
     if members:
         return (min(member_span(m)[0] for m in members), max(member_span(m)[1] for m in members))
     return None
